@@ -219,12 +219,7 @@ impl GenerationPass for AvailableValuePass {
                     &mut out_reg_n,
                     &node.memory_values_out(),
                 );
-                rule_zero_to_const(
-                    &mut out_reg_n,
-                    &node.reg_values_in(),
-                    &mut out_memory_n,
-                    &node.memory_values_in(),
-                );
+                rule_zero_to_const(&mut out_reg_n, &mut out_memory_n);
                 rule_perform_math_ops(&node.node(), &mut out_reg_n, &node.reg_values_in());
                 rule_push_value_to_csr_memory(&node.node(), &mut out_memory_n, &out_reg_n);
                 rule_known_values_to_stack(&mut out_memory_n, &node.reg_values_in());
@@ -266,27 +261,27 @@ fn out_reg_overwritten(node: &crate::cfg::CfgNode) -> crate::cfg::RegisterSet {
 
 fn rule_zero_to_const(
     available_out: &mut AvailableValueMap<Register>,
-    available_in: &AvailableValueMap<Register>,
     memory_out: &mut AvailableValueMap<MemoryLocation>,
-    memory_in: &AvailableValueMap<MemoryLocation>,
 ) {
-    for (reg, val) in available_in {
+    // Only values that are still present after this node may be rewritten: a value
+    // coming in can have been replaced by the node itself.
+    for (reg, val) in available_out.clone() {
         match val {
             AvailableValue::OriginalRegisterWithScalar(r, i)
             | AvailableValue::RegisterWithScalar(r, i) => {
                 if r.is_const_zero() {
-                    available_out.insert(*reg, AvailableValue::Constant(*i));
+                    available_out.insert(reg, AvailableValue::Constant(i));
                 }
             }
             _ => {}
         }
     }
-    for (mem_loc, val) in memory_in {
+    for (mem_loc, val) in memory_out.clone() {
         match val {
             AvailableValue::OriginalRegisterWithScalar(r, i)
             | AvailableValue::RegisterWithScalar(r, i) => {
                 if r.is_const_zero() {
-                    memory_out.insert(mem_loc.clone(), AvailableValue::Constant(*i));
+                    memory_out.insert(mem_loc, AvailableValue::Constant(i));
                 }
             }
             _ => {}
@@ -294,11 +289,6 @@ fn rule_zero_to_const(
     }
 }
 
-/// Rule that uses known addresses for load instructions to expand their represenation.
-///
-/// If a load instruction is found and the register where the address is contains
-/// a reference to a register value or memory address, then replace the loaded value
-/// with a reference to the specific memory location.
 fn rule_expand_address_for_load(
     node: &ParserNode,
     available_out: &mut AvailableValueMap<Register>,
